@@ -184,19 +184,24 @@ func (c *ClientNode) HistoryFile() []byte {
 // (independent reader of the documented layout: 4 byte origin, 4 bytes per
 // slot).
 func (c *ClientNode) HistoryValue(slot uint32) uint32 {
-	b := c.HistoryFile()
-	if len(b) < 4 {
+	f, err := os.Open(filepath.Join(c.Dir, client.HistoryFile))
+	if err != nil {
 		return 0
 	}
-	origin := binary.LittleEndian.Uint32(b)
+	defer f.Close()
+	var b [4]byte
+	if _, err := f.ReadAt(b[:], 0); err != nil {
+		return 0
+	}
+	origin := binary.LittleEndian.Uint32(b[:])
 	if slot < origin {
 		return 0
 	}
-	off := 4 * (1 + uint64(slot) - uint64(origin))
-	if off+4 > uint64(len(b)) {
+	off := 4 * (1 + int64(slot) - int64(origin))
+	if _, err := f.ReadAt(b[:], off); err != nil {
 		return 0
 	}
-	return binary.LittleEndian.Uint32(b[off:])
+	return binary.LittleEndian.Uint32(b[:])
 }
 
 // ServerMapFile decodes gcaServers.dat.
